@@ -443,6 +443,9 @@ int reb_simulation_remove_particle(struct reb_simulation* const r, int index, in
 
 	if (r->N==1){
 	    r->N = 0;
+        if (r->N_active>0){
+            r->N_active = 0; // N_active may not exceed N: the force and energy loops run to N_active
+        }
         if(r->free_particle_ap){
             r->free_particle_ap(&r->particles[index]);
         }
@@ -482,6 +485,9 @@ int reb_simulation_remove_particle(struct reb_simulation* const r, int index, in
                 r->free_particle_ap(&r->particles[index]);
             }
 		    r->particles[index] = r->particles[r->N];
+            if (r->N_active>(int)r->N){
+                r->N_active = r->N; // e.g. all particles were explicitly active. N_active may not exceed N.
+            }
         }
 	}
 
